@@ -292,14 +292,30 @@ def normalize_user_regions(
         for reference in bam_references:
             regions[reference].append((0, None))
     else:
-        bam_references = set(bam_references)
+        requested: Dict[str, List[Tuple[int, Optional[int]]]] = defaultdict(list)
+        known_references = set(bam_references)
         for region_spec in user_regions:
             region = Region.parse(region_spec)
-            if region.chromosome not in bam_references:
+            if region.chromosome not in known_references:
                 raise ValueError(
                     "Requested reference '{region.chromosome}' not found in input BAM/CRAM"
                 )
-            regions[region.chromosome].append((region.start, region.end))
+            requested[region.chromosome].append((region.start, region.end))
+        # Visit the chromosomes in the order of the BAM file and the regions of a chromosome from
+        # left to right, with overlapping or adjacent regions merged: the order in which regions
+        # are given (and whether they overlap) must not change which alignments are written.
+        for reference in bam_references:
+            if reference not in requested:
+                continue
+            merged: List[Tuple[int, Optional[int]]] = []
+            for start, end in sorted(requested[reference], key=lambda r: r[0]):
+                if merged and (merged[-1][1] is None or start <= merged[-1][1]):
+                    previous_start, previous_end = merged[-1]
+                    if previous_end is not None and (end is None or end > previous_end):
+                        merged[-1] = (previous_start, end)
+                else:
+                    merged.append((start, end))
+            regions[reference] = merged
     return regions
 
 
